@@ -445,6 +445,8 @@ fn shard_file_op(f1: &Path, f2: &Path, out: &Path, op: MDBSetOperation) -> Resul
     let shard_hash = hashed_write.hash();
 
     std::fs::rename(&temp_file_name, out)?;
+    #[cfg(xet_verif)]
+    utils::verif::stamp_mtime(out);
 
     Ok((shard_hash, shard))
 }
